@@ -292,3 +292,11 @@ def view_args(b):
     n = to_int(b.n)
     off = to_int(b.off)
     return (b.arr, z3.If(n == 0, z3.IntVal(0), off), n)
+
+
+class AbstractParser:
+    """an operand parser taken from a dispatch table whose entries are the subject of separate (K2) obligations:
+    applied to a stream at position p it leaves the stream at end(B, p, key) >= p and returns args(B, p, key)"""
+
+    def __init__(self, table, key):
+        self.table, self.key = table, key
